@@ -17,7 +17,6 @@ import (
 	"github.com/shutter-network/shutter/shlib/puredkg"
 	"github.com/shutter-network/shutter/shlib/shcrypto"
 
-	"github.com/shutter-network/rolling-shutter/rolling-shutter/keyper/dkgphase"
 	"github.com/shutter-network/rolling-shutter/rolling-shutter/keyper/shutterevents"
 
 	"verifharness/dkgsim"
@@ -40,6 +39,9 @@ type spec struct {
 	reloadMask uint
 	// dbFaults: database faults (connect timeouts, read timeouts, dropped connections, failed
 	// statements) are injected into honest keyper faultKeyper's steps with probability dbFaults/10
+	// lastBlock: every honest keyper is held back from the start of the eon until its messages land
+	// in the last block of the dealing phase
+	lastBlock   bool
 	dbFaults    int
 	faultKeyper int
 	sets        int // keyper sets known from the start (2: two key generations run at the same time)
@@ -82,7 +84,7 @@ func main() {
 		Level: "fault_enumeration",
 		Rule: "case = one complete DKG run over the real shuttermint app with repository keypers as the honest ones and harness-played Byzantine keypers; " +
 			"family byz3 = every strategy in {commitment: correct|none|wrong degree|duplicate} x {eval per victim: correct|wrong|none}^2 x {false accusation: none|victim a|victim b} x {apology: correct|wrong|none} x {in phase|after phase} for each Byzantine index of n=3,t=2 (exhaustive), under a regular schedule, plus seeded irregular schedules; " +
-			"family byzN = seeded strategies for n=4 (t=3: one Byzantine; t=2: two) and n=5 (t=3: two); sampled strategies additionally use undecryptable evaluations, evaluations plus the group order, early accusations, unsolicited apologies, wrong-eon messages and messages naming outsiders or the sender itself; in the seeded families honest keyper processes are additionally restarted between two iterations of their main loop (fresh in-memory state, same database); family byz3-late-honest = an honest keyper is not scheduled through one phase of the run (late dealing / late accusation / late apology) while the Byzantine keyper deals it a wrong evaluation and accuses it; family reload-diff = some honest keypers are restarted before every step (they always work from the state they stored), the others never, with a Byzantine keyper that also sends unsolicited apologies revealing 0, 1 or order-1, half of the runs with two keyper sets so that two key generations are active at once; family db-faults = one honest keyper's database connection fails now and then (connect timeout, read timeout, dropped connection, failed statement; its step fails and the main loop runs again) while it lags behind the chain; family honest = all keypers honest, seeded schedules (step order, skipped steps, empty blocks, phase length 4..8, n in 3..5). " +
+			"family byzN = seeded strategies for n=4 (t=3: one Byzantine; t=2: two) and n=5 (t=3: two); sampled strategies additionally use undecryptable evaluations, evaluations plus the group order, early accusations, unsolicited apologies, wrong-eon messages and messages naming outsiders or the sender itself; in the seeded families honest keyper processes are additionally restarted between two iterations of their main loop (fresh in-memory state, same database); family byz3-late-honest = an honest keyper is not scheduled through one phase of the run (late dealing / late accusation / late apology) while the Byzantine keyper deals it a wrong evaluation and accuses it; family reload-diff = some honest keypers are restarted before every step (they always work from the state they stored), the others never, with a Byzantine keyper that also sends unsolicited apologies revealing 0, 1 or order-1, half of the runs with two keyper sets so that two key generations are active at once; family db-faults = one honest keyper's database connection fails now and then (connect timeout, read timeout, dropped connection, failed statement; its step fails and the main loop runs again) while it lags behind the chain; family honest-last-block = all keypers honest and held back from the start of the eon so that all dealing lands in the last block of the dealing phase (phase boundaries are judged by the harness's own statement of the schedule, dkgsim.PhaseAt, not by the repository's phase function); family honest = all keypers honest, seeded schedules (step order, skipped steps, empty blocks, phase length 4..8, n in 3..5). " +
 			"distinct = spec string; non-trivial = at least one honest keyper reported success (agreement is then checked) ",
 		Assumptions: []string{
 			"Tendermint is replaced by smchain: the harness chooses block boundaries; keyper broadcasts execute into the open block",
@@ -148,6 +150,9 @@ func prepare(env *vlib.Env) (int, error) {
 			}
 		}
 		st.EarlyAccuse, st.EarlyApology, st.Noise = rng.Chance(1, 6), rng.Chance(1, 6), rng.Chance(1, 3)
+		if rng.Chance(1, 3) {
+			st.EvalsFirst = 1 + rng.Intn(2)
+		}
 		if rng.Chance(1, 2) {
 			st.Accuse = rng.Intn(n)
 			if st.Accuse == self {
@@ -226,6 +231,12 @@ func prepare(env *vlib.Env) (int, error) {
 		}
 		specs = append(specs, spec{family: "reload-diff", n: sh.n, t: sh.t, phaseLen: int64(4 + rng.Intn(4)), byz: bz, sched: rng.Uint64(), byzFirst: rng.Bool(),
 			skip: rng.Intn(2), maxSkip: 1, extra: rng.Intn(2), reloadMask: mask, sets: 1 + (i/5)%2})
+	}
+	// all honest keypers deal in the last block of the dealing phase
+	for i := 0; i < env.Scale(24, 400); i++ {
+		n := 3 + i%3
+		t := 2 + rng.Intn(n-1)
+		specs = append(specs, spec{family: "honest-last-block", n: n, t: t, phaseLen: int64(4 + rng.Intn(5)), sched: rng.Uint64(), lastBlock: true})
 	}
 	// db-faults: one honest keyper's database connection misbehaves now and then (the keyper's main
 	// loop just runs again); its pool opens a new connection for every access so that connect
@@ -311,6 +322,7 @@ func runCase(env *vlib.Env, idx int, rep *vlib.Reporter) {
 	restarts := 0
 	paused := 0
 	faultsFired, faultSteps := 0, 0
+	heldBack := 0
 	for ; rounds < maxRounds; rounds++ {
 		if sp.byzFirst {
 			for _, b := range byz {
@@ -322,9 +334,17 @@ func runCase(env *vlib.Env, idx int, rep *vlib.Reporter) {
 			if k == nil {
 				continue
 			}
+			if sp.lastBlock {
+				if h0, ok := eonStarts(s)[1]; ok {
+					if open := s.Chain.Height() + 1; open >= h0 && open < h0+sp.phaseLen-1 {
+						heldBack++
+						continue
+					}
+				}
+			}
 			if sp.pause == i {
 				if h0, ok := eonStarts(s)[1]; ok {
-					if ph := dkgphase.NewConstantPhaseLength(sp.phaseLen).GetPhaseAtHeight(s.Chain.Height()+1, h0); ph == sp.pausePhase {
+					if ph := dkgsim.PhaseAt(s.Chain.Height()+1, h0, sp.phaseLen); ph == sp.pausePhase {
 						paused++
 						continue
 					}
@@ -410,6 +430,9 @@ func runCase(env *vlib.Env, idx int, rep *vlib.Reporter) {
 	rep.Obs("runs", 1)
 	rep.Obs("runs_"+sp.family, 1)
 	rep.Obs("honest_keyper_restarts", int64(restarts))
+	if heldBack > 0 {
+		rep.Obs("runs_with_all_dealing_in_the_last_block_of_the_phase", 1)
+	}
 	rep.Obs("db_faults_fired", int64(faultsFired))
 	rep.Obs("steps_failed_by_an_injected_db_fault", int64(faultSteps))
 	if paused > 0 {
@@ -503,7 +526,6 @@ func judge(ctx context.Context, env *vlib.Env, s *dkgsim.Sim, sp spec, desc stri
 		rep.Obs("runs_without_eon", 1)
 		return
 	}
-	phases := dkgphase.NewConstantPhaseLength(sp.phaseLen)
 	var eons []uint64
 	for e := range starts {
 		eons = append(eons, e)
@@ -581,13 +603,13 @@ func judge(ctx context.Context, env *vlib.Env, s *dkgsim.Sim, sp spec, desc stri
 			ki := s.U.AddrIndex(tx.Signer)
 			if pc := tx.Msg.GetPolyCommitment(); pc != nil && pc.Eon == eon {
 				dealtBy[ki] |= 1
-				if phases.GetPhaseAtHeight(tx.Height, h0) != puredkg.Dealing {
+				if dkgsim.PhaseAt(tx.Height, h0, sp.phaseLen) != puredkg.Dealing {
 					inPhase = false
 				}
 			}
 			if pe := tx.Msg.GetPolyEval(); pe != nil && pe.Eon == eon {
 				dealtBy[ki] |= 2
-				if phases.GetPhaseAtHeight(tx.Height, h0) != puredkg.Dealing {
+				if dkgsim.PhaseAt(tx.Height, h0, sp.phaseLen) != puredkg.Dealing {
 					inPhase = false
 				}
 			}
